@@ -52,7 +52,11 @@ func pickIndex(name string) int {
 
 func genTripDesc(c *Ctx, p string, i int, rich bool) *gtfsrt.TripDescriptor {
 	d := &gtfsrt.TripDescriptor{}
-	d.TripId = optStr(c, p+"trip_id", true, fmt.Sprintf("T%d", i), "", fmt.Sprintf("trip with space %d", i), fmt.Sprintf("trïp-日本-%d", i))
+	ids := []string{fmt.Sprintf("T%d", i), "", fmt.Sprintf("trip with space %d", i), fmt.Sprintf("trïp-日本-%d", i)}
+	if i == 2 {
+		ids = append(ids, "T1") // the trip_id of the other trip: the other identifier fields tell them apart
+	}
+	d.TripId = optStr(c, p+"trip_id", true, ids...)
 	d.RouteId = optStr(c, p+"route_id", rich, fmt.Sprintf("R%d", i), "")
 	d.DirectionId = optU32(c, p+"direction_id", rich, uint32(i%2), uint32(1-i%2), 7)
 	d.StartTime = optStr(c, p+"start_time", rich, fmt.Sprintf("0%d:08:09", i), "00:00:00", "25:10:05", "23:59:59")
@@ -117,6 +121,46 @@ func genStopTimeUpdates(c *Ctx, p string, salt int, rich bool) []*gtfsrt.TripUpd
 		u.StopId = optStr(c, q+"stop_id", true, fmt.Sprintf("S%d", s), "")
 		u.Arrival = genEvent(c, q+"arrival.", s*2, rich, rich)
 		u.Departure = genEvent(c, q+"departure.", s*2+1, rich, rich)
+		if u.Arrival != nil {
+			// the departure may equal the arrival in value while differing in which fields are present:
+			// absent <-> explicitly zero
+			switch c.Choose(q+"departure_mirrors_arrival", 3) {
+			case 1: // every field of the arrival, zeros written out
+				z32, z64 := int32(0), int64(0)
+				d := &gtfsrt.TripUpdate_StopTimeEvent{Time: u.Arrival.Time, Delay: u.Arrival.Delay, Uncertainty: u.Arrival.Uncertainty}
+				if d.Time == nil {
+					d.Time = &z64
+				}
+				if d.Delay == nil {
+					d.Delay = &z32
+				}
+				if d.Uncertainty == nil {
+					d.Uncertainty = &z32
+				}
+				u.Departure = d
+			case 2: // the arrival's non-zero fields only; and the arrival gets explicit zeros for its absent ones
+				d := &gtfsrt.TripUpdate_StopTimeEvent{}
+				if u.Arrival.Time != nil && *u.Arrival.Time != 0 {
+					d.Time = u.Arrival.Time
+				}
+				if u.Arrival.Delay != nil && *u.Arrival.Delay != 0 {
+					d.Delay = u.Arrival.Delay
+				}
+				if u.Arrival.Uncertainty != nil && *u.Arrival.Uncertainty != 0 {
+					d.Uncertainty = u.Arrival.Uncertainty
+				}
+				u.Departure = d
+				a := proto.Clone(u.Arrival).(*gtfsrt.TripUpdate_StopTimeEvent)
+				z32 := int32(0)
+				if a.Delay == nil {
+					a.Delay = &z32
+				}
+				if a.Uncertainty == nil {
+					a.Uncertainty = &z32
+				}
+				u.Arrival = a
+			}
+		}
 		if k := optIdx(c, q+"schedule_relationship", rich, 4); k >= 0 {
 			v := []gtfsrt.TripUpdate_StopTimeUpdate_ScheduleRelationship{gtfsrt.TripUpdate_StopTimeUpdate_SKIPPED, gtfsrt.TripUpdate_StopTimeUpdate_SCHEDULED, gtfsrt.TripUpdate_StopTimeUpdate_NO_DATA, gtfsrt.TripUpdate_StopTimeUpdate_UNSCHEDULED}[k]
 			u.ScheduleRelationship = &v
@@ -242,6 +286,11 @@ type c02Msg struct {
 	tz       tzOpt
 	skip     string // non-empty: outside the quantifier (conflicting duplicates, empty descriptor in a trip update)
 	hasAssoc bool
+	// per pool pair: the descriptors, whether the trip occurs at all, and whether some entity associates trip i with vehicle i
+	td    [2]*gtfsrt.TripDescriptor
+	vd    [2]*gtfsrt.VehicleDescriptor
+	trip  [2]bool
+	assoc [2]bool
 }
 
 func genC02(c *Ctx, rich bool) c02Msg {
@@ -264,9 +313,11 @@ func genC02(c *Ctx, rich bool) c02Msg {
 		p := fmt.Sprintf("e.tu%d.", i+1)
 		if present(c, p+"present", i == 0 || rich) {
 			tu := &gtfsrt.TripUpdate{Trip: cloneTD(t[i])}
+			out.trip[i] = true
 			if present(c, p+"vehicle", rich) {
 				tu.Vehicle = cloneVD(v[i])
 				out.hasAssoc = true
+				out.assoc[i] = true
 				if refVehicleID(v[i]) == nil {
 					out.skip = "empty vehicle descriptor inside a trip update"
 				}
@@ -281,6 +332,8 @@ func genC02(c *Ctx, rich bool) c02Msg {
 			if present(c, p+"trip", rich) {
 				vp.Trip = cloneTD(t[i])
 				out.hasAssoc = true
+				out.trip[i] = true
+				out.assoc[i] = true
 			}
 			ents = append(ents, &gtfsrt.FeedEntity{Id: sp(fmt.Sprintf("vp%d", i+1)), Vehicle: vp})
 		}
@@ -304,7 +357,40 @@ func genC02(c *Ctx, rich bool) c02Msg {
 	}
 	m.Entity = ents
 	out.msg = m
+	out.td = [2]*gtfsrt.TripDescriptor{t[0], t[1]}
+	out.vd = [2]*gtfsrt.VehicleDescriptor{v[0], v[1]}
 	return out
+}
+
+// c02CheckLinks: Trip.Vehicle is a surfaced field too. For each pool pair the wire either
+// associates trip i with vehicle i (through the trip update's vehicle descriptor or the
+// position's trip descriptor) or with nothing: the trip's vehicle must be that one, or nil.
+func c02CheckLinks(c *Ctx, g c02Msg, r *gtfs.Realtime, tz *time.Location, label string) {
+	if vid0, vid1 := refVehicleID(g.vd[0]), refVehicleID(g.vd[1]); vid0 == nil || vid1 == nil {
+		return // vehicles without any identifier: links are C04's business
+	}
+	for i := 0; i < 2; i++ {
+		if !g.trip[i] {
+			continue
+		}
+		want := dumpTripID(refTripID(g.td[i], tz))
+		for k := range r.Trips {
+			if dumpTripID(r.Trips[k].ID) != want {
+				continue
+			}
+			got := "nil"
+			if r.Trips[k].Vehicle != nil {
+				got = dumpVehicleID(r.Trips[k].Vehicle.ID)
+			}
+			exp := "nil"
+			if g.assoc[i] {
+				exp = dumpVehicleID(refVehicleID(g.vd[i]))
+			}
+			if got != exp {
+				c.Fail("transcription"+label+":Trip.Vehicle", "trip %s: vehicle %s, on the wire %s", want, got, exp)
+			}
+		}
+	}
 }
 
 func c02Harness(rich bool) Harness {
@@ -343,6 +429,7 @@ func c02Harness(rich bool) Harness {
 		if wd != gd {
 			c.Fail(c02Signature(wd, gd), "result differs from the wire content (timezone=%s)\n%s", g.tz.name, diffLines(wd, gd))
 		}
+		c02CheckLinks(c, g, r, g.tz.loc, "")
 		// the same bytes under another zone, in the same process: the result must follow the option
 		// of THIS call (the twin of a fixed zone has the same name and another offset)
 		tz2 := tzOptions[c02Twin[pickIndex(g.tz.name)]]
